@@ -129,6 +129,8 @@ FaultCases(cl, a, R) ==
     \cup {Exch(cl, a, R, <<Term("writeerr")>>, "writeerr", 0, 0),
           Exch(cl, a, R, <<>>, "notconnected", 0, 0),
           Exch(cl, a, R, <<>>, "nilreq", 0, 0)}
+    \* the caller cancels before anything has been read while the complete reply is there for the taking
+    \cup {Exch(cl, a, R, <<Chunk(L)>>, "precancel", 0, 0), Exch(cl, a, R, <<Chunk(L)>>, "cancelonwrite", 0, 0)}
     \* the only Connect failed although the dial function produced a connection object (network clients)
     \cup (IF cl = "serial" THEN {} ELSE {Exch(cl, a, R, <<Chunk(Len(R))>>, "connectfailed", 0, 0), Exch(cl, a, R, <<>>, "connectfailednil", 0, 0),
                                           Exch(cl, a, R, <<>>, "writestall", 0, 0)})
